@@ -52,6 +52,9 @@ def work_one(job):
         findings, seen = E.explore(c, tpl, res["stats"])
         res["family"] = tpl.family
         res["role"] = tpl.role
+        if not seen and not findings:
+            # a template that explored nothing decides nothing: never a silent pass
+            raise RuntimeError(f"template {tpl.name} produced no path (vacuous)")
         # ---- witness replay: SX output with tokens concretised must equal the native output byte for byte
         if not opts.get("wrong") and opts.get("witness", True):
             for r in list(seen.values())[: opts.get("witness_paths", 2)]:
